@@ -8,6 +8,7 @@ use h_common::{tool_error, Args};
 mod ranges;
 mod session;
 mod store;
+mod subs;
 mod syncrange;
 mod windowsearch;
 
@@ -23,6 +24,7 @@ fn main() {
         ("replay", "windowsearch") => windowsearch::replay(&args),
         ("record", "session") => session::record(&args),
         ("replay", "vrange") => session::replay_vrange(&args),
+        ("record", "subs") => subs::record(&args),
         ("record", "store") => store::record(&args),
         _ => tool_error(&format!("unknown mode/model {mode}/{model}")),
     }
